@@ -61,6 +61,13 @@ let run_case line =
   | ["SU"; ups] ->
     let res = ref [] in
     let st = List.fold_left (fun st u ->
+      if u.[0] = 'i' then begin
+        let arg () = n_of_int (int_of_string (String.sub u 3 (String.length u - 3))) in
+        res := "-" :: !res;
+        apply_incr st (match String.sub u 1 2 with
+                       | "bs" -> IBytesSent (arg ()) | "ps" -> IPacketsSent
+                       | "bd" -> IBytesDropped (arg ()) | "pd" -> IPacketsDropped
+                       | _ -> failwith ("bad increment " ^ u)) end else
       match String.split_on_char '/' u with
       | [r; len] ->
         let len = n_of_int (int_of_string len) in
